@@ -387,6 +387,10 @@ def c08(res, tier, seed, deep):
             var.append(" ".join(p[:3] + ["-"] + p[4:]))
         var.append(" ".join([p[0], "b" if p[1] == "w" else "w"] + p[2:3] + ["-"] + p[4:]))
     fens += var
+    # hash (and evaluation) of successor OBJECTS built by make-move, never re-read from FEN (anything cached or updated
+    # incrementally inside the position object would show here and nowhere else): every legal move of a sample
+    oreqs = [f"objafter {rnd.choice([0, seed])} {f}" for f in epd + rnd.sample(base, min(len(base), 400 if tier == "thorough" else 120))]
+    wee.compare_batch(res, oreqs, SPEC_VIEWS)
     seeds = [0, seed, rnd.getrandbits(64)]
     viol_before = len(res.violations)
     for sd in seeds:
